@@ -63,10 +63,14 @@ type exhCfg struct {
 	Depth       int
 }
 
-func exhConfigs() []exhCfg {
+func exhConfigs(structural bool) []exhCfg {
+	d3 := vstat.Pick(6, 8)
+	if structural { // the walk after every step costs about a third more; C11 shares its budget with the LRU part
+		d3 = vstat.Pick(6, 7)
+	}
 	return []exhCfg{
 		{Keys: 2, MaxIt: 2, Depth: vstat.Pick(7, 9)},
-		{Keys: 3, MaxIt: 3, Depth: vstat.Pick(6, 8)},
+		{Keys: 3, MaxIt: 3, Depth: d3},
 	}
 }
 
@@ -85,7 +89,7 @@ func exhaustive(t *testing.T, prop, test string, structural bool) {
 	st := vstat.For(prop)
 	shard, shards := vstat.Shard()
 	var parts []map[string]any
-	for _, cfg := range exhConfigs() {
+	for _, cfg := range exhConfigs(structural) {
 		alpha := Alphabet(cfg.Keys, cfg.MaxIt)
 		n := CanonicalLists(alpha, cfg.MaxIt, cfg.Depth, shard, shards, func(ops []Op) {
 			c := Case{Keys: cfg.Keys, MaxIt: cfg.MaxIt, Ops: ops}
